@@ -277,7 +277,7 @@ var oddFieldValues = []string{
 }
 
 // values that are not valid UTF-8 (kept apart: see the field re-encoding finding)
-var nonUTF8FieldValues = []string{"\xff", "a\xc3", "\xfe\xfex", "ok\x80"}
+var nonUTF8FieldValues = []string{"\xff", "a\xc3", "\xfe\xfex", "ok\x80", "q\"\xff\\b\n\x01", "1e3\xff", " \xa0 "}
 
 var fieldNames = []string{"speed", "Speed", "a", "b", "heading", "a b", "naïve", "f.x", "props", "n0", "zz", "Z9"}
 
@@ -445,6 +445,7 @@ func load(c *srv.Conn, d dataset) (errs []string) {
 
 func quiescent(r *hx.Result, cfg hx.Config, rng *rand.Rand, idx int, nonUTF8 bool) {
 	dir := filepath.Join(cfg.Work, fmt.Sprintf("q%d", idx))
+	os.RemoveAll(dir)
 	in := startInst(cfg.Work, dir)
 	defer func() { in.close() }()
 	ds := genDataset(rng, 10+rng.Intn(8), 1+rng.Intn(2), true, nonUTF8)
@@ -657,6 +658,7 @@ func knownKeys(c *srv.Conn) []string {
 
 func concurrent(r *hx.Result, cfg hx.Config, rng *rand.Rand, idx int) {
 	dir := filepath.Join(cfg.Work, fmt.Sprintf("c%d", idx))
+	os.RemoveAll(dir)
 	in := startInst(cfg.Work, dir)
 	defer func() { in.close() }()
 	ds := genDataset(rng, 10+rng.Intn(6), 1+rng.Intn(2), true, false)
@@ -850,6 +852,7 @@ func recStr(rec []string) string {
 // held, and what the model predicted for it.
 func playSchedule(r *hx.Result, cfg hx.Config, drv *model.Driver, sc schedule, idx int) {
 	dir := filepath.Join(cfg.Work, fmt.Sprintf("m%d", idx))
+	os.RemoveAll(dir)
 	in := startInst(cfg.Work, dir)
 	defer func() { in.close() }()
 	drv.Ask("new")
@@ -984,9 +987,13 @@ func playSchedule(r *hx.Result, cfg hx.Config, drv *model.Driver, sc schedule, i
 		sig := "shrink-concurrent-restart-mismatch"
 		if hasRename && live == mlive && restarted == mrep {
 			// exactly the loss the faithful model predicts for a RENAME concurrent with the rewrite
-			sig = "shrink-rename-concurrent"
+			sig = "shrink-rename-stale"
 		}
 		a, b := diffLines(strings.ReplaceAll(live, ",", "\n"), strings.ReplaceAll(restarted, ",", "\n"))
+		if sig == "shrink-rename-stale" && len(b) == 0 {
+			// objects of a renamed collection are missing after the restart, nothing else differs
+			sig = "shrink-rename-lost"
+		}
 		r.Fail(hx.Failure{Kind: "oracle", Signature: sig, What: "dataset after restart differs from the live dataset (" + sc.name + "): live-only " + unhexLines(clip(a, 4)) + " restart-only " + unhexLines(clip(b, 4)), Case: caseDesc, Impl: map[string]interface{}{"only_live": clip(a, 8), "only_after_restart": clip(b, 8)}, Model: map[string]interface{}{"model_predicts_mismatch": mlive != mrep}})
 	}
 }
@@ -1052,7 +1059,7 @@ func genSchedule(rng *rand.Rand, withRename bool) schedule {
 	}
 	ncols := 7 + rng.Intn(8)
 	keyOf := func(j int) string {
-		odd := []string{"", "K", "k1", "k\xff", "a b"}
+		odd := []string{"K", "k1", "k\xff", "a b", "~"}
 		if j >= 12 {
 			return odd[(j-12)%len(odd)]
 		}
@@ -1111,6 +1118,7 @@ func genSchedule(rng *rand.Rand, withRename bool) schedule {
 
 func jsonWitness(r *hx.Result, cfg hx.Config, which string) {
 	dir := filepath.Join(cfg.Work, "j-"+which)
+	os.RemoveAll(dir)
 	in := startInst(cfg.Work, dir)
 	defer func() { in.close() }()
 	in.c.MustDo("SET", "docs", "d1", "STRING", `{"arr":[1,2,3]}`)
@@ -1161,6 +1169,7 @@ func dirState(dir string) string {
 
 func crashScenario(r *hx.Result, cfg hx.Config, rng *rand.Rand, drv *model.Driver, cp string, idx int) {
 	dir := filepath.Join(cfg.Work, fmt.Sprintf("x%d", idx))
+	os.RemoveAll(dir)
 	in := startInst(cfg.Work, dir)
 	defer func() { in.close() }()
 	ds := genDataset(rng, 9+rng.Intn(4), 1, true, false)
